@@ -448,6 +448,7 @@ def make_evidence(prop, tier, seed, level, cfg, harness, stats_all, engines_coun
     cov = {
         "evaluations": evaluations,
         "distinct_nontrivial": distinct,
+        "distinct_nontrivial_note": "distinct case hashes among non-trivial cases, merged across workers; each worker keeps at most 250000 hashes, so this is a lower bound when nontrivial_total is much larger",
         "nontrivial_total": nontrivial,
         "rule": rule,
         "samples": samples,
